@@ -598,10 +598,21 @@ def _neq_orientation(fn) -> bool:
             inner.add(id(n.orelse[0]))
         if isinstance(n, ast.IfExp) and isinstance(n.orelse, ast.IfExp):
             inner.add(id(n.orelse))
+    # `a != b and (X if b < a else Y)`: the operands behind an inequality are evaluated knowing it
+    guarded = set()
+    for n in ast.walk(fn):
+        if isinstance(n, ast.BoolOp) and isinstance(n.op, ast.And):
+            ctx = frozenset()
+            for v in n.values:
+                if isinstance(v, ast.IfExp) and ctx:
+                    chain_e(v, ctx)
+                    guarded.add(id(v))
+                if isinstance(v, ast.Compare) and len(v.ops) == 1 and isinstance(v.ops[0], ast.NotEq):
+                    ctx = ctx | {frozenset((_u(v.left), _u(v.comparators[0])))}
     for n in ast.walk(fn):
         if isinstance(n, ast.If) and id(n) not in inner:
             chain(n, frozenset())
-        if isinstance(n, ast.IfExp) and id(n) not in inner:
+        if isinstance(n, ast.IfExp) and id(n) not in inner and id(n) not in guarded:
             chain_e(n, frozenset())
     return changed
 
